@@ -2,8 +2,8 @@
    (proxy/request.go).  Executable model only.
 
    NewConcurrentMiddlewareWithLogger, for ConcurrentCalls = n:
-     - n attempts are spawned: the first n-1 on CloneRequest(request) (evaluated one after
-       the other by the calling goroutine), the last one on the request itself;
+     - n attempts are spawned, each on its own CloneRequest(request) (evaluated one after
+       the other by the calling goroutine);
      - the caller then performs at most n iterations of
            select { response = <-results (return at once when complete)
                   | err = <-failed | <-ctx.Done() (the PARENT context) }
@@ -110,12 +110,13 @@ Definition clone_request (r : request) : request * request :=
       (with_body r (Some buf), with_body drained (Some buf))
   end.
 
-(* the requests handed to the n attempts, in spawn order: n-1 clones, then the original
-   as the clones left it *)
+(* the requests handed to the n attempts, in spawn order: EVERY attempt gets its own
+   CloneRequest copy (the calls are evaluated one after the other by the calling goroutine,
+   each one re-buffering the caller's request for the next); the caller's request itself is
+   handed to nobody *)
 Fixpoint spawn (n : nat) (r : request) : list request :=
   match n with
   | O => []
-  | S O => [r]
   | S m => let '(c, r') := clone_request r in c :: spawn m r'
   end.
 
